@@ -150,13 +150,18 @@ def _extract_omega_delta_phi(
                 raise ValueError(f"Input {name} has non-zero imaginary part.")
 
             pchip = PCHIP1D(t_grid, signal.real)
-            data_mid[:, q_pos] = pchip(t_mid)
+            values = pchip(t_mid)
             if name == "amp":
-                data_mid[-1, q_pos] = torch.where(
-                    data_mid[-1, q_pos] > 0,
-                    data_mid[-1, q_pos],
-                    0,
+                # Pulser samples stop at T-1 (and Pulser assumes Ω(T) = 0): beyond the
+                # last sample the interpolant is an extrapolation and must not make
+                # the amplitude negative. Several midpoints can lie there (dt < 1, or
+                # extra evaluation times), not only the last one.
+                values = torch.where(
+                    (t_mid > t_grid[-1]) & (values < 0),
+                    torch.zeros_like(values),
+                    values,
                 )
+            data_mid[:, q_pos] = values
 
     omega_c, delta_c, phi_c = (
         arr.to(torch.complex128) for arr in (omega_mid, delta_mid, phi_mid)
